@@ -244,6 +244,9 @@ func TestC02Failover(t *testing.T) {
 		if only := os.Getenv("VERIF_ONLY_STRATEGY"); only != "" { // debugging aid
 			strategy = only
 		}
+		// what the requests look like (method, headers) is drawn per history: no clause of the statement depends on it
+		dress := lab.DrawDressPlan(rt)
+		nreq := 0
 		n := rapid.IntRange(1, 6).Draw(rt, "n")
 		weights := make([]int, n)
 		for i := range weights {
@@ -306,8 +309,10 @@ func TestC02Failover(t *testing.T) {
 							w.fn.Set(h, lab.Park)
 						}
 						ch := make(chan result, 1)
+						nreq++
+						preq := dress.At(nreq).Request("/p", client)
 						go func() {
-							s, b, _, _ := lab.Serve(w.lb, lab.Request("GET", "/p", client, nil))
+							s, b, _, _ := lab.Serve(w.lb, preq)
 							ch <- result{s, b}
 						}()
 						synctest.Wait()
@@ -323,7 +328,8 @@ func TestC02Failover(t *testing.T) {
 						viol = w.check(u, pool, true, w.fn.HostAt(before), 0, "")
 						return
 					}
-					s, b, _, _ := lab.Serve(w.lb, lab.Request("GET", "/r", client, nil))
+					nreq++
+					s, b, _, _ := lab.Serve(w.lb, dress.At(nreq).Request("/r", client))
 					if w.fn.Arrivals() > before+1 {
 						viol = "one request reached backends more than once"
 						return
@@ -528,7 +534,7 @@ func TestC02Failover(t *testing.T) {
 		if loaded {
 			labels = append(labels, "inflight-99plus")
 		}
-		sub.Case(map[string]any{"strategy": strategy, "weights": weights, "health": hc, "history": hist}, partial > 0, labels...)
+		sub.Case(map[string]any{"strategy": strategy, "weights": weights, "health": hc, "history": hist, "dress": dress}, partial > 0, append(labels, dress.Label())...)
 		sub.Count("probes", fn.TotalProbes())
 		sub.Count("requests-first-after-a-window-ended", afterExpiry)
 		sub.Count("requests", requests)
